@@ -32,8 +32,10 @@
 #include <cds/sync/spinlock.h>
 #include <cds/threading/model.h>
 #include <vcase.h>
+#include <chrono>
 #include <memory>
 #include <string>
+#include <unistd.h>
 #include <utility>
 #include <vector>
 
@@ -83,15 +85,79 @@ namespace c15 {
     struct item_key_extractor { void operator()( int& k, item const& v ) const { k = v.key; } };
 
     struct monitor_out {
-        std::string iter, structural;
+        std::string iter, structural, shape;
         long size = -1; int empty = -1;
     };
+
+    // --- watchdog: a case that does not finish within the time limit (livelock of the real container, also after the
+    //     scheduler gave up at the step limit) is reported as "endcase hang" and the process exits with status 3 ---
+    struct watchdog {
+        static std::atomic<long long>& deadline() { static std::atomic<long long> d( 0 ); return d; }
+        static std::string& current() { static std::string s; return s; }
+        static long long now() { return std::chrono::duration_cast<std::chrono::milliseconds>( std::chrono::steady_clock::now().time_since_epoch()).count(); }
+        static void start()
+        {
+            static bool started = false;
+            if ( started ) return;
+            started = true;
+            std::thread( [] {
+                for ( ;; ) {
+                    std::this_thread::sleep_for( std::chrono::milliseconds( 200 ));
+                    long long d = deadline().load();
+                    if ( d != 0 && now() > d ) {
+                        std::printf( "case %s\nendcase hang\n", current().c_str());
+                        std::fflush( stdout );
+                        _exit( 3 );
+                    }
+                }
+            } ).detach();
+        }
+        static void arm( std::string const& id, int seconds ) { current() = id; deadline().store( now() + 1000LL * seconds ); }
+        static void disarm() { deadline().store( 0 ); }
+    };
+
+    // --- sequential mode (C18): cfg[10] == 1.  The operations of thread 0 are executed by the main thread, one after
+    //     the other; after EVERY operation the quiescent structure is probed.  Output per operation:
+    //         q <code> <k> <v> <a> <b> <c>
+    //         Q size=<n> empty=<b> bad=<failed structural checks|-> iter=<k:v ...> shape=<family specific dump>
+    template <class A>
+    void run_sequential( vcase::Case const& c )
+    {
+        watchdog::arm( c.id, 120 );
+        std::unique_ptr<A> a( new A );
+        std::printf( "case %s\n", c.id.c_str());
+        if ( !c.threads.empty())
+        for ( auto const& op : c.threads[0] ) {
+            if ( op.empty()) continue;
+            long code = op[0], k = op.size() > 1 ? op[1] : 0, v = op.size() > 2 ? op[2] : 0;
+            level_feed::next() = op.size() > 3 ? (unsigned) op[3] : 0;
+            R r = a->apply( code, k, v );
+            monitor_out mo;
+            a->monitor( mo );
+            std::string bad;
+            size_t p = 0;
+            while (( p = mo.structural.find( "monitor struct ", p )) != std::string::npos ) {
+                size_t e = mo.structural.find( '\n', p );
+                std::string line = mo.structural.substr( p + 15, e - p - 15 );
+                size_t sp = line.find( ' ' );
+                if ( sp != std::string::npos && line[sp + 1] == '0' ) bad += line.substr( 0, sp ) + ",";
+                p = e;
+            }
+            std::printf( "q %ld %ld %ld %ld %ld %ld\nQ size=%ld empty=%d bad=%s iter=%s shape=%s\n", code, k, v, r.a, r.b, r.c,
+                         mo.size, mo.empty, bad.empty() ? "-" : bad.c_str(), mo.iter.c_str(), mo.shape.c_str());
+        }
+        std::printf( "endcase finished\nmonitor functor_bad %ld\n", a->fbad );
+        a.reset();
+    }
 
     // --- the runner ------------------------------------------------------------------------------------
     // A (adapter) provides:  R apply( long code, long k, long v );  void monitor( monitor_out& );  long fbad;
     template <class A>
-    void run_variant( vcase::Case const& c, size_t max_steps = 400000 )
+    void run_variant( vcase::Case const& c, size_t max_steps = 60000 )
     {
+        watchdog::start();
+        watchdog::arm( c.id, 12 );
+        if ( c.cfg.size() > 10 && c.cfg[10] == 1 ) { run_sequential<A>( c ); watchdog::disarm(); return; }
         std::unique_ptr<A> a( new A );
         long mask = c.cfg.size() > 1 ? c.cfg[1] : 0;
         std::string pre;
@@ -136,6 +202,7 @@ namespace c15 {
         std::printf( "\n" );
         std::printf( "monitor functor_bad %ld\n", a->fbad );
         a.reset();
+        watchdog::disarm();
     }
 
     // --- adapters for the cds::container sets (SkipListSet, EllenBinTreeSet) -----------------------------
